@@ -18,8 +18,8 @@ Definition creates (c : cmd) : option (ty * bytes * list skey) :=
   | CHMSet k fvl => Some (TH, k, map (fun fv => SB (fst fv)) fvl)
   | CHIncrBy k f _ => Some (TH, k, [SB f])
   | CSAdd k ms => Some (TS, k, map SB ms)
-  | CZAdd k sml => Some (TZ, k, map (fun x => SB (snd x)) sml)
-  | CZIncrBy k _ m => Some (TZ, k, [SB m])
+  | CZAdd k sml => Some (TZ, k, map (fun x => SB (snd x)) sml ++ map (fun x => SS (fst x) (snd x)) sml)
+  | CZIncrBy k d m => Some (TZ, k, [SB m; SS d m])
   | _ => None
   end.
 
@@ -51,6 +51,41 @@ Proof.
   apply in_map. revert Hx. induction l as [|a l IH]; simpl; auto. intros [->|Hx]; auto.
   apply filter_In in Hx as [Hx _]. auto.
 Qed.
+
+Lemma In_zlast_wins2 x l : In x (zlast_wins l) -> In x l.
+Proof.
+  induction l as [|[a b] l IH]; simpl; auto. destruct (existsb _ l); simpl; intros H; auto. destruct H; auto.
+Qed.
+Lemma el_get_zset_item_inv s k v st x t' k' v' sb' y :
+  el_get (zset_item s k v st x) t' k' v' sb' = Some y ->
+  ((t', k', v') = (TZ, k, v) /\ (sb' = SB (snd x) \/ sb' = SS (fst x) (snd x))) \/ el_get st t' k' v' sb' = Some y.
+Proof.
+  unfold zset_item. destruct x as [sc m]. cbn [fst snd].
+  assert (P2 : forall st0, el_get (el_put (el_put st0 TZ k v (SB m) (EI sc)) TZ k v (SS sc m) (EB [])) t' k' v' sb' = Some y ->
+               ((t', k', v') = (TZ, k, v) /\ (sb' = SB m \/ sb' = SS sc m)) \/ el_get st0 t' k' v' sb' = Some y).
+  { intros st0. rewrite !el_get_put.
+    destruct (ekey_eqb (t', k', v', sb') (TZ, k, v, SS sc m)) eqn:X1.
+    - apply ekey_eqb_eq in X1. inversion X1; subst. auto.
+    - destruct (ekey_eqb (t', k', v', sb') (TZ, k, v, SB m)) eqn:X2; auto.
+      apply ekey_eqb_eq in X2. inversion X2; subst. auto. }
+  destruct (el_get s TZ k v (SB m)) as [e|].
+  - destruct (score_of e =? sc); auto. intros H. destruct (P2 _ H) as [|H2]; auto.
+    rewrite el_get_del in H2. destruct (ekey_eqb _ _); [discriminate | auto].
+  - apply P2.
+Qed.
+Lemma el_get_fold_zset_item_inv s k v l : forall st t' k' v' sb' y,
+  el_get (fold_left (zset_item s k v) l st) t' k' v' sb' = Some y ->
+  ((t', k', v') = (TZ, k, v) /\ (In sb' (map (fun x => SB (snd x)) l) \/ In sb' (map (fun x => SS (fst x) (snd x)) l))) \/
+  el_get st t' k' v' sb' = Some y.
+Proof.
+  induction l as [|x l IH]; intros st t' k' v' sb' y H; simpl in *; auto.
+  destruct (IH _ _ _ _ _ _ H) as [[E [I | I]] | E]; auto.
+  destruct (el_get_zset_item_inv _ _ _ _ _ _ _ _ _ _ E) as [[E2 [-> | ->]] | E2]; auto.
+Qed.
+Lemma meta_get_zset_item s k v st x t' k' : meta_get (zset_item s k v st x) t' k' = meta_get st t' k'.
+Proof. unfold zset_item. destruct x. destruct (el_get s TZ k v (SB b)); [destruct (score_of e =? z)|]; reflexivity. Qed.
+Lemma meta_get_fold_zset_item s k v l : forall st t' k', meta_get (fold_left (zset_item s k v) l st) t' k' = meta_get st t' k'.
+Proof. induction l as [|x l IH]; intros st t' k'; simpl; auto. now rewrite IH, meta_get_zset_item. Qed.
 
 Lemma noe_prepare' ts s t k : noe ts s t k -> exists ex, coll_prepare Compact s ts t k = (mkH 0 ts, None, ex).
 Proof.
@@ -114,13 +149,21 @@ Proof.
     unfold do_zadd. destruct sml as [|x sml]; [simpl; split; [intros sb y; now rewrite F | auto]|].
     rewrite P. cbn [h_ver fst]. split.
     + intros sb y. rewrite el_get_incr_size. intros H.
-      destruct (el_get_fold_put_inv _ _ _ _ _ _ _ _ _ _ _ _ H) as [[_ I] | E]; [now apply In_zlast_wins | now rewrite F in E].
-    + intros m Hm. left. now apply incr_size_fold_meta in Hm.
+      destruct (el_get_fold_zset_item_inv _ _ _ _ _ _ _ _ _ _ H) as [[_ [I | I]] | E]; [| |now rewrite F in E]; apply in_or_app.
+      * left. apply in_map_iff in I as (z & <- & Hz). apply (in_map (fun x0 : Z * bytes => SB (snd x0))). now apply In_zlast_wins2.
+      * right. apply in_map_iff in I as (z & <- & Hz). apply (in_map (fun x0 : Z * bytes => SS (fst x0) (snd x0))). now apply In_zlast_wins2.
+    + intros m Hm. left. unfold incr_size in Hm.
+      destruct (size_of None + _ <=? 0).
+      * rewrite meta_get_del, (proj2 (mkey_eqb_eq (TZ, k) (TZ, k)) eq_refl) in Hm. discriminate.
+      * rewrite meta_get_put, (proj2 (mkey_eqb_eq (TZ, k) (TZ, k)) eq_refl) in Hm. inversion Hm; reflexivity.
   - (* zincrby *)
     unfold do_zincrby. rewrite P. cbn [h_ver]. rewrite (F (SB m)). cbn [fst]. split.
-    + intros sb x. rewrite el_get_put, el_get_incr_size, F.
-      destruct (ekey_eqb _ _) eqn:X; [|discriminate]. apply ekey_eqb_eq in X. inversion X; subst. simpl; auto.
-    + intros m0. rewrite meta_get_el_put. intros Hm. left. now apply meta_get_incr_size_new in Hm.
+    + intros sb x. rewrite !el_get_put, el_get_incr_size, F.
+      destruct (ekey_eqb (TZ, k, ts, sb) (TZ, k, ts, SB m)) eqn:X1.
+      * apply ekey_eqb_eq in X1. inversion X1; subst. simpl; auto.
+      * destruct (ekey_eqb (TZ, k, ts, sb) (TZ, k, ts, SS d m)) eqn:X2; [|discriminate].
+        apply ekey_eqb_eq in X2. inversion X2; subst. simpl; auto.
+    + intros m0. rewrite !meta_get_el_put. intros Hm. left. now apply meta_get_incr_size_new in Hm.
 Qed.
 
 (* ---------- the exclusions are necessary: refutations of the unrestricted statements ---------- *)
